@@ -29,6 +29,63 @@ def _full(loop):
     return not any(x['k'] in ('break', 'return') for x in SX.walk(loop['body'], into_lambdas=False))
 
 
+
+def _fresh_records(prog, chk, amethods, fields):
+    """R10.1 — what a table holds for a declaration is built from that declaration alone: a local record that is filled element by element
+    and stored into an analyser table inside a loop over declarations is declared (or emptied) inside that loop.  Declared outside, it
+    carries the elements of the declarations already seen (`FunctionInfo info;` hoisted out of the predeclaration loop: every signature
+    starts with the parameters of all earlier functions — which calls are accepted then depends on the order of the functions)."""
+    GROW = ('push_back', 'emplace_back', 'insert', 'emplace', 'append', 'push_front', 'emplace_front', 'try_emplace', 'insert_or_assign', 'operator+=')
+    n = 0
+
+    def root_id(e):
+        e = SX.strip(e)
+        while SX.is_node(e) and e.get('k') in ('member', 'index'):
+            e = SX.strip(e.get('base'))
+        return e.get('id') if SX.is_node(e) and e.get('k') == 'ref' and e.get('kind') == 'var' else None
+
+    def unmove(e):
+        e = SX.strip(e)
+        while SX.is_node(e) and e.get('k') == 'call' and (e.get('callee') or '').startswith('std::move') and e.get('args'):
+            e = SX.strip(e['args'][0])
+        return e
+    for f in amethods:
+        if not f.body:
+            continue
+        decls = {v['id']: v for v in SX.walk(f.body, into_lambdas=False) if v.get('k') == 'var' and v.get('id')}
+        for lp in SX.walk(f.body, into_lambdas=False):
+            if lp.get('k') not in ('for', 'forrange', 'while'):
+                continue
+            inside = list(SX.walk(lp['body'], into_lambdas=False))
+            stored = {}
+            for x in inside:
+                w = SX.write_target(x)
+                v = None
+                if w and SX.is_node(SX.strip(w[0])) and SX.strip(w[0]).get('k') == 'index' and SX.is_this_member(SX.strip(SX.strip(w[0]).get('base'))) \
+                        and SX.strip(SX.strip(w[0])['base'])['name'] in fields and w[2] == '=':
+                    v = unmove(w[1])
+                elif x.get('k') == 'mcall' and SX.is_this_member(SX.strip(x.get('obj'))) and SX.strip(x['obj'])['name'] in fields and SX.short(x.get('callee', '')) in GROW:
+                    a = SX.real_args(x)
+                    v = unmove(a[-1]) if a else None
+                if SX.is_node(v) and v.get('k') == 'ref' and v.get('kind') == 'var' and v.get('id') in decls:
+                    stored[v['id']] = x
+            for vid, st in stored.items():
+                n += 1
+                d = decls[vid]
+                if any(y is d for y in inside):
+                    chk.ob('R10.1', f, st.get('ln', f.ln), True, 'the record %s stored per declaration is declared inside the loop' % d['name'], key='fresh:%s:%s' % (f.short, d['name']), nontrivial=False)
+                    continue
+                grown = [x for x in inside if (x.get('k') == 'mcall' and SX.short(x.get('callee', '')) in GROW and not x.get('constm', False) and root_id(x.get('obj')) == vid)
+                         or (x.get('k') == 'opcall' and x.get('op') == '+=' and x.get('args') and root_id(x['args'][0]) == vid)]
+                emptied = [x for x in inside if (x.get('k') == 'mcall' and SX.short(x.get('callee', '')) == 'clear' and root_id(x.get('obj')) == vid)
+                           or ((lambda w_: w_ and w_[2] == '=' and SX.is_node(SX.strip(w_[0])) and SX.strip(w_[0]).get('k') == 'ref' and SX.strip(w_[0]).get('id') == vid)(SX.write_target(x)))]
+                ok = not grown or bool(emptied)
+                chk.ob('R10.1', f, d.get('ln', f.ln), ok,
+                       'the record %s is stored into an analyser table once per declaration and filled element by element (%s) inside the loop, but lives across iterations: what is stored '
+                       'for a declaration then contains the elements of the declarations before it' % (d['name'], SX.show(grown[0])[:40] if grown else ''), key='fresh:%s:%s' % (f.short, d['name']))
+    return n
+
+
 def run(prog, chk):
     R = Roles(prog)
     chk.rule('R10.1', 'analyser lookup tables are complete for all declarations before the first visit')
@@ -72,6 +129,7 @@ def run(prog, chk):
             continue
         tables.append(m)
     chk.count('program-wide analyser tables read by visits', len(tables), 3)
+    chk.count('local records stored into analyser tables inside loops', _fresh_records(prog, chk, amethods, fields), 1)
     g = prog.cfg(analyse)
     accepts = [c for c in g.calls(lambda e: e['k'] == 'mcall' and SX.short(e['callee']) == 'accept')]
     if not accepts:
